@@ -42,24 +42,37 @@ Definition mk (pre post mask : str) (KD : str) (values : (N -> bool) -> list str
   flat_map (fun r : rend => map (fun v => (pre, (fst (snd r), (v, (snd (snd r), (post, mask)))))) (values (fst r)))
            (renderings KD).
 
+Fixpoint sel_go {A} (sel : nat -> bool) (i : nat) (l : list A) : list A :=
+  match l with [] => [] | x :: t => if sel i then x :: sel_go sel (S i) t else sel_go sel (S i) t end.
+(* the same over the renderings whose index satisfies [sel] *)
+Definition mk_sub (sel : nat -> bool) (pre post mask : str) (KD : str) (values : (N -> bool) -> list str) : list case :=
+  flat_map (fun r : rend => map (fun v => (pre, (fst (snd r), (v, (snd (snd r), (post, mask)))))) (values (fst r)))
+           (sel_go sel 0 (renderings KD)).
+Definition mod3 (j i : nat) : bool := Nat.eqb (Nat.modulo i 3) j.
+
 Definition fixed_values (vs : list str) (cls : N -> bool) : list str := filter (forallb cls) vs.
 Definition rep_values1 (reps : list N) (cls : N -> bool) : list str := map (fun c => [c]) (filter cls reps).
 Definition rep_values2 (reps : list N) (cls : N -> bool) : list str :=
   flat_map (fun c => [[c; 97]; [97; c]]) (filter cls reps).
 
 (* A: every key x every casing x every rendering, two values *)
+(* keys that contain another key (outside the universal whole-function theorems): every casing, every rendering;
+   every key: a third of the renderings in lower case *)
+Definition nonsolo_keys : list str :=
+  filter (fun k => negb (forallb (fun k' => beq k' k || negb (occursb k' k)) spec_keys_35)) spec_keys_35.
 Definition family_A : list case :=
-  flat_map (fun k => flat_map (fun KD => mk (lit "run ") (lit " ok") (lit "***") KD
-                                            (fixed_values [[97]; [233; 94]])) (casings k)) spec_keys_35.
+  flat_map (fun k => flat_map (fun KD => mk (lit "run ") (lit " ok") (lit "***") KD (fixed_values [[233; 94]])) (casings k)) nonsolo_keys ++
+  flat_map (fun k => mk_sub (mod3 0) (lit "run ") (lit " ok") (lit "***") k (fixed_values [[233; 94]])) spec_keys_35.
 (* B: one key, every rendering, every class representative at length 1 and inside length-2 values *)
+Definition rep_values2h (reps : list N) (cls : N -> bool) : list str := map (fun c => [c; 97]) (filter cls reps).
 Definition family_B : list case :=
-  mk [] [] (lit "?") (lit "password") (rep_values1 reps_all) ++
-  mk (lit "a ") (lit " z") (lit "***") (lit "auth_password") (rep_values2 reps_templates).
+  mk [] [] (lit "?") (lit "password") (rep_values1 (firstn 24 reps_templates)) ++
+  mk_sub (mod3 1) (lit "a ") (lit " z") (lit "***") (lit "auth_password") (rep_values2h (firstn 16 reps_templates)).
 (* C: every key x every rendering x contexts x masks *)
-Definition contexts : list (str * str) := [([], []); (lit "run ", lit " ok"); ([97; 10], [9; 122; 32; 49])].
+Definition contexts : list ((str * str) * str) := [(([97; 10], [9; 122; 32; 49]), lit "?")].
 Definition family_C : list case :=
-  flat_map (fun k => flat_map (fun ctx : str * str => flat_map (fun mask =>
-     mk (fst ctx) (snd ctx) mask k (fixed_values [lit "s3cret"])) [lit "***"; lit "?"]) contexts) spec_keys_35.
+  flat_map (fun k => flat_map (fun cm : (str * str) * str =>
+     mk_sub (fun i => Nat.eqb i 7) (fst (fst cm)) (snd (fst cm)) (snd cm) k (fixed_values [lit "s3cret"])) contexts) spec_keys_35.
 
 Definition family_quick : list case := family_A ++ family_B ++ family_C.
 
@@ -78,7 +91,24 @@ Definition rep_values3 (reps : list N) (cls : N -> bool) : list str :=
   flat_map (fun c => [[c; 97; c]; [97; c; 98]]) (filter cls reps).
 Definition family_thorough : list case :=
   flat_map (fun k => flat_map (fun KD =>
-     mk (lit "run ") (lit " ok") (lit "***") KD (rep_values1 reps_templates)) (casings k)) spec_keys_35 ++
-  flat_map (fun k => flat_map (fun KD =>
-     mk (lit "a ") (lit " z") (lit "?") KD (fun cls => rep_values2 reps_templates cls ++ rep_values3 reps_templates cls))
-     (casings k)) [lit "password"; lit "auth_password"; lit "token"; lit "cephclusterfsid"; lit "chapsecret"].
+     mk (lit "run ") (lit " ok") (lit "***") KD (fun cls => fixed_values [[97]] cls ++ rep_values1 (firstn 24 reps_templates) cls)) (casings k)) spec_keys_35 ++
+  flat_map (fun k => mk (lit "a ") (lit " z") (lit "?") k (fun cls => rep_values1 reps_all cls ++ rep_values2 reps_templates cls ++ rep_values3 reps_templates cls))
+     [lit "password"; lit "auth_password"; lit "token"] ++
+  flat_map (fun k => flat_map (fun mask => flat_map (fun ctx : str * str =>
+     mk (fst ctx) (snd ctx) mask k (fixed_values [lit "s3cret"])) [([], []); (lit "run ", lit " ok")])
+     [lit "***"; lit "?"]) spec_keys_35.
+
+(* many secrets in one message (same key, same rendering, four values): a substitution that stops
+   after a fixed number of matches would leave the later ones in clear text *)
+Definition multi_vals : list str := [[97]; [98; 50]; [99; 94]; [100; 233]].
+Definition multi_case := (str * (str * str))%type.        (* message, expected, mask *)
+Definition mk_multi (mask : str) (r : rend) : multi_case :=
+  let vs := filter (forallb (fst r)) multi_vals in
+  (flat_map (fun v => fst (snd r) ++ v ++ snd (snd r) ++ [32; 49; 32]) vs,
+   (flat_map (fun v => fst (snd r) ++ mask ++ snd (snd r) ++ [32; 49; 32]) vs, mask)).
+Definition family_multi : list multi_case :=
+  flat_map (fun KD => map (mk_multi (lit "***")) (renderings KD))
+           [lit "password"; lit "TOKEN"; lit "Sslkey7"; lit "auth_password"].
+Definition check_multi_with (f : str -> str -> str) (z : str -> bool) (c : multi_case) : bool :=
+  z (fst c) || (beq (f (fst c) (snd (snd c))) (fst (snd c)) && beq (f (fst (snd c)) (snd (snd c))) (fst (snd c))).
+Definition check_multi (c : multi_case) : bool := check_multi_with mask_password in_zone c.
